@@ -444,10 +444,17 @@ def rule_wire(chk, prog, rule="WIRE", which=("REQ4", "RESP4", "RESP5", "REQ5")):
                         "the socket operations of %s / %s could not be enumerated (too many paths or an unknown shape); failing closed" % (wf[0].path, rf[0].path))
             continue
         n += 1
-        rl2 = wire.merge_fixed(wire.fold_lstr(set(tuple(prefix) + r for r in rl)))
-        wl = wire.merge_fixed(wire.fold_lstr(wl))
+        rl_u = wire.fold_lstr(set(tuple(prefix) + r for r in rl))
+        wl_u = wire.fold_lstr(wl)
+        rl2 = wire.merge_fixed(rl_u)
+        wl = wire.merge_fixed(wl_u)
         prefix = ()
         missing, unused = wire.compatible(wl, rl2, prefix)
+        if (missing or unused) and any("var" in w for w in wl_u):
+            # a field the encoder assembles in a buffer whose construction is not followed ("var"): compare field by field, the
+            # unknown field standing for one field of the decoder; only "everything written is expected" can then be decided
+            missing, _ = wire.compatible(wl_u, rl_u, ())
+            unused = []
         ok = not missing and (not unused or not both)
         chk.instance(rule, "%s:%s" % (wf[0].file, wf[0].line), "%s: layouts written %s = layouts read %s" % (
             label, sorted(wl, key=str), sorted(set(tuple(prefix) + r for r in rl2), key=str)), ok)
